@@ -44,6 +44,44 @@ def plan(tier, seed):
     return t
 
 
+def refeed_sequence(p, n, conn, rnd, table, retain):
+    """The library's own outputs fed back in after caller edits: a delivered circuit object (with whatever
+    attributes the library attached to it) gets single-qubit gates in front of / between its gates and is
+    compressed again; the answer must fit the *edited* circuit."""
+    from qiskit import QuantumCircuit
+    from htstabilizer.stabilizer_circuits import get_preparation_circuit, compress_preparation_circuit
+    from htstabilizer.stabilizer import Stabilizer
+    label = rnd.choice(sorted(set(lcorbit.orbit_table(n))))
+    m = ws.member(label, n, rnd)
+    ok, delivered = call(lambda: get_preparation_circuit(Stabilizer(ws.strings(m["gens"], n)), conn) if rnd.getrandbits(1)
+                         else compress_preparation_circuit(ws.qiskit_circuit(m["circuit"], n), conn))
+    if not ok:
+        return
+    for step in range(3):
+        pre = QuantumCircuit(n)
+        for q in range(n):
+            if rnd.random() < 0.5:
+                getattr(pre, rnd.choice(["h", "s", "sdg", "h"]))(q)
+        how = rnd.choice(["front", "front", "middle", "back"])
+        if how == "front":
+            edited = delivered.compose(pre, front=True)
+        elif how == "back":
+            edited = delivered.compose(pre)
+        else:
+            edited = delivered.copy()
+            k = rnd.randrange(len(edited.data) + 1)
+            for inst in reversed(pre.data):
+                edited.data.insert(k, inst)
+        g = [(nm, qs) for nm, qs in gates_of(edited)]
+        if any(nm not in ("id", "x", "y", "z", "h", "s", "sdg", "cx", "cz", "swap") for nm, qs in g):
+            return
+        keep_md = edited.metadata
+        run_case(p, n, conn, g, table, retain, "re-fed delivered circuit (%s)" % how, qc_obj=edited, keep_attrs=True)
+        ok, delivered = call(compress_preparation_circuit, edited, conn)
+        if not ok:
+            return
+
+
 def reused_object_sequence(p, n, conn, rnd, table, retain):
     """One QuantumCircuit object passed several times, edited in place by the caller between the calls (also by
     edits that keep the number of instructions): every answer must belong to the contents at call time."""
@@ -80,7 +118,7 @@ def reused_object_sequence(p, n, conn, rnd, table, retain):
     run_case(p, n, conn, list(g), table, retain, "reused-object", qc_obj=qc)
 
 
-def run_case(p, n, conn, g, table=None, retain=None, stratum="random", qc_obj=None):
+def run_case(p, n, conn, g, table=None, retain=None, stratum="random", qc_obj=None, keep_attrs=False):
     from htstabilizer.stabilizer_circuits import compress_preparation_circuit
     from htstabilizer.stabilizer import Stabilizer
     from htstabilizer.lc_classes import determine_lc_class
@@ -88,8 +126,10 @@ def run_case(p, n, conn, g, table=None, retain=None, stratum="random", qc_obj=No
     case = {"n": n, "conn": conn, "gates": [[nm, list(qs)] for nm, qs in g]}
     p.evals += 1
     qc = qc_obj if qc_obj is not None else ws.qiskit_circuit(g, n)
-    qc.name = "input-circuit"
-    qc.metadata = {"tag": 7}
+    if not keep_attrs:
+        qc.name = "input-circuit"
+        qc.metadata = {"tag": 7}
+    name0, md0 = qc.name, (dict(qc.metadata) if isinstance(qc.metadata, dict) else qc.metadata)
     before = gates_of(qc)
     if [(("id" if nm == "i" else nm), qs) for nm, qs in g] != before:
         p.errors.append("harness: reused circuit object out of sync with its gate list")
@@ -99,7 +139,7 @@ def run_case(p, n, conn, g, table=None, retain=None, stratum="random", qc_obj=No
     if not ok:
         p.violate(key + "raises", "compress_preparation_circuit raised %s (%s) on [%s]" % (exc_name(out), str(out)[:100], fmt_gates(g)[:300]), case)
         return
-    if gates_of(qc) != before or qc.num_qubits != n or qc.name != "input-circuit" or qc.metadata != {"tag": 7} or out is qc:
+    if gates_of(qc) != before or qc.num_qubits != n or qc.name != name0 or qc.metadata != md0 or out is qc:
         p.violate(key + "input-modified", "the input circuit object was modified (or returned) by compress_preparation_circuit", case)
     og = gates_of(out)
     if retain is not None:
@@ -156,6 +196,9 @@ def work(task):
         for i in range(cnt):
             if kind == "cheap" and i % 4 == 3:
                 reused_object_sequence(p, n, conn, rnd, table, retain)
+                continue
+            if kind == "cheap" and i % 4 == 1:
+                refeed_sequence(p, n, conn, rnd, table, retain)
                 continue
             if kind == "cheap":
                 g = ws.cheap_uncoupled(n, rnd)
